@@ -52,7 +52,10 @@ def generate(rng, tier, shard, nshards):
                 sp = gen.pixel_region_spec(rng, classes=classes, size=L, center=(0.0, 0.0), max_aspect=8.0)
                 return c02.shift_to(sp, *c) if ('center' in sp['p'] or 'vertices' in sp['p']) else _shift_line(sp, c)
             if rng.random() < 0.12:
-                reg = S.reg('CompoundPixelRegion', region1=leaf(gen.MASKABLE), region2=leaf(gen.MASKABLE), operator=rng.choice(['and', 'or', 'xor']))
+                # operands of every kind, also the point-like ones (their membership answer is a plain False)
+                kinds = rng.choice([gen.MASKABLE, gen.MASKABLE, gen.MASKABLE + ['PointPixelRegion', 'LinePixelRegion', 'TextPixelRegion'],
+                                    ['PointPixelRegion', 'LinePixelRegion', 'TextPixelRegion']])
+                reg = S.reg('CompoundPixelRegion', region1=leaf(kinds), region2=leaf(kinds), operator=rng.choice(['and', 'or', 'xor']))
                 if rng.random() < 0.5:
                     reg['meta'] = {'include': rng.choice([True, False, 0, 1]), 'label': 'cmp'}
             else:
@@ -76,7 +79,8 @@ def generate(rng, tier, shard, nshards):
                 return {'pending': True, 'cls': rng.choice(classes or gen.ALL_SKY), 'dx': rng.uniform(-300, 300), 'dy': rng.uniform(-300, 300),
                         'size_deg': gen.logu(rng, 1, 50) * scale, 'seed': rng.randrange(2 ** 31), 'frame': frame}
             if rng.random() < 0.12:
-                reg = {'compound': True, 'r1': sleaf(gen.SKY_SIMPLE + gen.SKY_ANNULI), 'r2': sleaf(gen.SKY_SIMPLE + gen.SKY_ANNULI),
+                kinds = rng.choice([gen.SKY_SIMPLE + gen.SKY_ANNULI, gen.SKY_SIMPLE + gen.SKY_ANNULI, gen.ALL_SKY, gen.SKY_EMPTY])
+                reg = {'compound': True, 'r1': sleaf(kinds), 'r2': sleaf(kinds),
                        'op': rng.choice(['and', 'or', 'xor']), 'meta': rng.choice([None, {'include': False}, {'include': 1, 'label': 'c'}])}
                 lane = 'sky2pix2sky:CompoundSkyRegion'
             else:
